@@ -56,9 +56,10 @@ type c20Sym struct {
 }
 
 type c20Cfg struct {
-	n, t  int
-	img   *Image
-	alpha []c20Sym
+	n, t    int
+	img     *Image
+	alpha   []c20Sym
+	nsAlpha []c20Sym // the same alphabet over the shares of the sealed namespace
 }
 
 // c20Build initialises a Core with seal configuration (n,t).
@@ -482,11 +483,13 @@ func TestVerifC20Core(t *testing.T) {
 	outcomes := map[string]int{}
 	for _, sh := range shapes {
 		s0 := c20Build(t, sh.n, sh.t)
+		nsKeys := c20AddNamespace(t, s0, sh.n, sh.t)
 		cfg := &c20Cfg{n: sh.n, t: sh.t, img: s0.Image()}
 		s0.Close()
 		cfg.alpha = c20Alphabet(cfg.img.Keys, sh.n)
+		cfg.nsAlpha = c20Alphabet(nsKeys, sh.n)
 		lmax := sh.t + extra
-		ops := []string{"unseal", "genroot", "rekey", "rotate"}
+		ops := []string{"unseal", "genroot", "rekey", "rotate", "nsunseal"}
 		for _, op := range ops {
 			// quick: the key-changing operations are enumerated for two shapes
 			if !thorough && (op == "rekey" || op == "rotate") && !(sh == (nt{3, 2}) || sh == (nt{4, 3}) || sh == (nt{1, 1})) {
@@ -495,6 +498,8 @@ func TestVerifC20Core(t *testing.T) {
 			var d c20Driver
 			if op == "unseal" {
 				d = &c20Unseal{t: t, cfg: cfg}
+			} else if op == "nsunseal" {
+				d = &c20NSUnseal{t: t, cfg: cfg}
 			} else {
 				d = &c20Live{t: t, cfg: cfg, op: op}
 			}
@@ -509,6 +514,14 @@ func TestVerifC20Core(t *testing.T) {
 				}
 			}
 			fullAlpha := cfg.alpha
+			if op == "nsunseal" {
+				fullAlpha, deepAlpha = cfg.nsAlpha, nil
+				for _, a := range cfg.nsAlpha {
+					if (a.Genuine && len(deepAlpha) < sh.t) || a.Name == "C" {
+						deepAlpha = append(deepAlpha, a)
+					}
+				}
+			}
 			for fam := 0; fam < 2; fam++ {
 				famAlpha, famMax := fullAlpha, lmax
 				if fam == 1 {
